@@ -4,6 +4,7 @@ import (
 	"go/token"
 	"go/types"
 	"sort"
+	"strings"
 
 	"golang.org/x/tools/go/ssa"
 
@@ -684,4 +685,626 @@ func suppliedGlobalsReplaceTheOldOnes(c *core.Ctx) {
 		core.Undecidedf("no option closure writes VirtualMachine.inputGlobals")
 	}
 	c.Stat("global_supplying_options", n)
+}
+
+// ---------------------------------------------------------------------------
+// importErrorsReachTheScript: every error that importing a module can end with
+// has a way out of the dispatch loop: the error result of each importModule
+// call there is returned on some path.  An error that is only compared with
+// nil is swallowed together with whatever the module's code did before it
+// failed: `from pkg import name` with a failing pkg/name fell back, silently,
+// to an attribute called name of pkg.
+func importErrorsReachTheScript(c *core.Ctx) {
+	p := c.P
+	t := VMTable(p)
+	eval := p.SSAFunc(t.Eval)
+	n := 0
+	for _, b := range eval.Blocks {
+		for _, in := range b.Instrs {
+			call, ok := in.(*ssa.Call)
+			if !ok {
+				continue
+			}
+			cal := call.Call.StaticCallee()
+			if cal == nil || cal.Name() != "importModule" {
+				continue
+			}
+			n++
+			returned := false
+			if refs := call.Referrers(); refs != nil {
+				for _, r := range *refs {
+					ex, ok := r.(*ssa.Extract)
+					if !ok || ex.Index != 1 {
+						continue
+					}
+					seen := map[ssa.Value]bool{}
+					var walk func(v ssa.Value, d int)
+					walk = func(v ssa.Value, d int) {
+						if d > 6 || seen[v] || v.Referrers() == nil {
+							return
+						}
+						seen[v] = true
+						for _, r2 := range *v.Referrers() {
+							switch x := r2.(type) {
+							case *ssa.Return:
+								returned = true
+							case *ssa.Phi:
+								walk(x, d+1)
+							case *ssa.MakeInterface:
+								walk(x, d+1)
+							case *ssa.Store:
+								// spilled result of a function with defers
+								if al, ok := x.Addr.(*ssa.Alloc); ok && x.Val == v {
+									if ar := al.Referrers(); ar != nil {
+										for _, r3 := range *ar {
+											if u, ok := r3.(*ssa.UnOp); ok {
+												walk(u, d+1)
+											}
+										}
+									}
+								}
+							}
+						}
+					}
+					walk(ex, 0)
+				}
+			}
+			c.Check(returned, "vm.eval|import-error-returned|"+sprintf("%d", n), p.Pos(call.Pos()),
+				"the error of the importModule call at "+p.Pos(call.Pos())+ife(returned, " is returned on some path", " is never returned: it is only compared with nil, so a module that exists and fails while it runs is treated like a module that does not exist, and the statement goes on with something else"))
+		}
+	}
+	if n < 2 {
+		core.Undecidedf("only %d importModule calls in the dispatch loop", n)
+	}
+	c.Stat("import_calls_in_dispatch", n)
+}
+
+// ---------------------------------------------------------------------------
+// modulesInProgressAreNotImportedAgain: the function that runs a module's code
+// for an import marks the module as in progress before it does, and refuses to
+// run a module that is: the completed-modules table is only written when the
+// code has finished, so two modules that import each other would otherwise run
+// each other's code until the frames are used up.
+func modulesInProgressAreNotImportedAgain(c *core.Ctx) {
+	p := c.P
+	t := VMTable(p)
+	eval := p.SSAFunc(t.Eval)
+	vmT := vmType(p)
+	n := 0
+	for _, fn := range repoFns(p, "vm") {
+		if fn.Parent() != nil {
+			continue
+		}
+		var run ssa.Instruction
+		imports := false
+		for _, b := range fn.Blocks {
+			for _, in := range b.Instrs {
+				call, ok := in.(*ssa.Call)
+				if !ok {
+					continue
+				}
+				if call.Call.StaticCallee() == eval {
+					run = in
+				}
+				if call.Call.IsInvoke() && call.Call.Method.Name() == "Import" {
+					imports = true
+				}
+			}
+		}
+		if run == nil || !imports {
+			continue
+		}
+		n++
+		// a map field of the VM that is looked up (leading to a return) and updated before the run
+		guarded := ""
+		st := vmT.Underlying().(*types.Struct)
+		for fi := 0; fi < st.NumFields(); fi++ {
+			if _, isMap := st.Field(fi).Type().Underlying().(*types.Map); !isMap {
+				continue
+			}
+			looked, marked := false, false
+			for _, b := range fn.Blocks {
+				for _, in := range b.Instrs {
+					switch x := in.(type) {
+					case *ssa.Lookup:
+						if _, ok := loadOfField(x.X, vmT, fi); ok && instrReaches(in, run) {
+							// the hit leaves the function with an error: some successor of the test cannot reach the run
+							if refs := x.Referrers(); refs != nil {
+								for _, r := range *refs {
+									var iff *ssa.If
+									switch y := r.(type) {
+									case *ssa.If:
+										iff = y
+									case *ssa.Extract:
+										if y.Referrers() != nil {
+											for _, r2 := range *y.Referrers() {
+												if i2, ok := r2.(*ssa.If); ok {
+													iff = i2
+												}
+											}
+										}
+									}
+									if iff != nil {
+										for _, s := range iff.Block().Succs {
+											if len(s.Instrs) > 0 && !instrReaches(s.Instrs[0], run) && returnsError(s) {
+												looked = true
+											}
+										}
+									}
+								}
+							}
+						}
+					case *ssa.MapUpdate:
+						if _, ok := loadOfField(x.Map, vmT, fi); ok && instrReaches(in, run) {
+							marked = true
+						}
+					}
+				}
+			}
+			if looked && marked {
+				guarded = st.Field(fi).Name()
+			}
+		}
+		c.Check(guarded != "", core.SSAName(fn)+"|module-in-progress-refused", p.Pos(run.Pos()),
+			core.SSAName(fn)+" runs the code of an imported module"+ife(guarded != "", " after marking it in vm."+guarded+" and refusing a module that is marked there", " without marking it as in progress: a module that is imported again while its code is running (two modules that import each other) runs again, until the frames are used up"))
+	}
+	if n == 0 {
+		core.Undecidedf("no function of package vm both asks an importer and runs the dispatch loop")
+	}
+	c.Stat("module_runners", n)
+}
+
+// returnsError: the block ends in a return whose last result is not the nil constant.
+func returnsError(b *ssa.BasicBlock) bool {
+	if len(b.Instrs) == 0 {
+		return false
+	}
+	r, ok := b.Instrs[len(b.Instrs)-1].(*ssa.Return)
+	if !ok || len(r.Results) == 0 {
+		return false
+	}
+	for _, o := range core.Origins(spilledResult(b, r.Results[len(r.Results)-1])) {
+		if k, isK := o.(*ssa.Const); !isK || !k.IsNil() {
+			return true
+		}
+	}
+	return false
+}
+
+// ---------------------------------------------------------------------------
+// failedCallbacksAreNotCalledAgain: a comparison function handed to the sort
+// package cannot stop the sort.  Where such a function calls back into the
+// script and records the error in a captured variable, it tests that variable
+// first and does not call again once it is set: after the context has been
+// cancelled every further call fails at once, but there are O(n log n) of them
+// left, each through the VM.
+func failedCallbacksAreNotCalledAgain(c *core.Ctx) {
+	p := c.P
+	n := 0
+	for _, fn := range repoFns(p, "builtins", "object") {
+		if fn.Parent() == nil {
+			continue
+		}
+		// handed to sort.Slice / SliceStable / Sort?
+		toSort := false
+		if refs := fn.Referrers(); refs != nil {
+			_ = refs
+		}
+		for _, b := range fn.Parent().Blocks {
+			for _, in := range b.Instrs {
+				call, ok := in.(*ssa.Call)
+				if !ok {
+					continue
+				}
+				cal := call.Call.StaticCallee()
+				if cal == nil || cal.Pkg == nil || cal.Pkg.Pkg.Path() != "sort" {
+					continue
+				}
+				for _, a := range call.Call.Args {
+					for _, o := range core.Origins(a) {
+						if mc, ok := o.(*ssa.MakeClosure); ok && mc.Fn == ssa.Value(fn) {
+							toSort = true
+						}
+					}
+				}
+			}
+		}
+		if !toSort {
+			continue
+		}
+		// a dynamic call that returns (Object, error), and a store of an error into a captured variable
+		var cb *ssa.Call
+		var errVar *ssa.FreeVar
+		for _, b := range fn.Blocks {
+			for _, in := range b.Instrs {
+				switch x := in.(type) {
+				case *ssa.Call:
+					if x.Call.StaticCallee() == nil && !x.Call.IsInvoke() {
+						if tup, ok := x.Type().(*types.Tuple); ok && tup.Len() == 2 && isErrorType(tup.At(1).Type()) {
+							cb = x
+						}
+					}
+				case *ssa.Store:
+					if fv, ok := x.Addr.(*ssa.FreeVar); ok && isErrorType(x.Val.Type()) {
+						errVar = fv
+					}
+				}
+			}
+		}
+		if cb == nil || errVar == nil {
+			continue
+		}
+		n++
+		tested := false
+		for _, b := range fn.Blocks {
+			if len(b.Instrs) == 0 || b == cb.Block() || !b.Dominates(cb.Block()) {
+				continue
+			}
+			iff, ok := b.Instrs[len(b.Instrs)-1].(*ssa.If)
+			if !ok {
+				continue
+			}
+			if bo, ok := iff.Cond.(*ssa.BinOp); ok && (bo.Op == token.NEQ || bo.Op == token.EQL) {
+				for _, s := range []ssa.Value{bo.X, bo.Y} {
+					if u, ok := s.(*ssa.UnOp); ok && u.X == ssa.Value(errVar) {
+						tested = true
+					}
+				}
+			}
+		}
+		c.Check(tested, core.SSAName(fn)+"|no-call-after-a-failure", p.Pos(cb.Pos()),
+			core.SSAName(fn.Parent())+" sorts with a comparison that calls back into the script and records a failure in "+errVar.Name()+ife(tested, "; the comparison tests that variable before it calls", "; the comparison does not test that variable before it calls: after a cancellation the sort goes on to make all its remaining comparisons, each a failing call through the VM"))
+	}
+	if n == 0 {
+		core.Undecidedf("no sort comparison calls back into the script")
+	}
+	c.Stat("sort_comparisons_with_callbacks", n)
+}
+
+// ---------------------------------------------------------------------------
+// contextErrorsKeepTheirIdentity: where a blocking operation gives up because
+// the context ended, it reports the context's own error (ctx.Err(), possibly
+// boxed or wrapped with %w).  Printed into the text of a new error with %s or
+// %v it is no longer context.Canceled for errors.Is, and the host that
+// compares the evaluation's error with the context's gets a mismatch.
+func contextErrorsKeepTheirIdentity(c *core.Ctx) {
+	p := c.P
+	n := 0
+	for _, fn := range repoFns(p) {
+		for _, b := range fn.Blocks {
+			for _, in := range b.Instrs {
+				call, ok := in.(*ssa.Call)
+				if !ok || !call.Call.IsInvoke() || call.Call.Method.Name() != "Err" || !core.IsNamed(call.Call.Value.Type(), "context", "Context") {
+					continue
+				}
+				n++
+				// does the result end up among the variadic arguments of a printf-like function?
+				flattened := ""
+				seen := map[ssa.Value]bool{}
+				var walk func(v ssa.Value, d int)
+				walk = func(v ssa.Value, d int) {
+					if d > 5 || seen[v] || v.Referrers() == nil {
+						return
+					}
+					seen[v] = true
+					for _, r := range *v.Referrers() {
+						switch x := r.(type) {
+						case *ssa.MakeInterface:
+							walk(x, d+1)
+						case *ssa.ChangeInterface:
+							walk(x, d+1)
+						case *ssa.Store:
+							// into the slot of a variadic argument slice
+							if ia, ok := x.Addr.(*ssa.IndexAddr); ok && x.Val == v {
+								if al, ok := ia.X.(*ssa.Alloc); ok && al.Referrers() != nil {
+									for _, r2 := range *al.Referrers() {
+										if sl, ok := r2.(*ssa.Slice); ok && sl.Referrers() != nil {
+											for _, r3 := range *sl.Referrers() {
+												if ci, ok := r3.(ssa.CallInstruction); ok {
+													cal := ci.Common().StaticCallee()
+													if cal == nil {
+														continue
+													}
+													isFmt := cal.Pkg != nil && cal.Pkg.Pkg.Path() == "fmt" && strings.HasSuffix(cal.Name(), "f")
+													if !isFmt && !printfLike(cal, 0) {
+														continue
+													}
+													// the format: wrapping with %w keeps the identity
+													wraps := false
+													for _, a := range ci.Common().Args {
+														if k, ok := a.(*ssa.Const); ok && k.Value != nil && strings.Contains(k.Value.ExactString(), "%w") {
+															wraps = true
+														}
+													}
+													if !wraps {
+														flattened = core.SSAName(cal)
+													}
+												}
+											}
+										}
+									}
+								}
+							}
+						}
+					}
+				}
+				walk(call, 0)
+				c.Check(flattened == "", core.SSAName(fn)+"|context-error-keeps-its-identity|"+sprintf("%d", countErrCalls(fn, in)), p.Pos(call.Pos()),
+					core.SSAName(fn)+" asks the context for its error"+ife(flattened == "", " and hands it on as it is", " and prints it into the text of a new error with "+flattened+": the result is not the context's error any more (errors.Is(err, context.Canceled) is false), although cancellation is what ended the evaluation"))
+			}
+		}
+	}
+	if n < 5 {
+		core.Undecidedf("only %d calls of context.Context.Err found", n)
+	}
+	c.Stat("context_err_calls", n)
+}
+
+func countErrCalls(fn *ssa.Function, at ssa.Instruction) int {
+	k := 0
+	for _, b := range fn.Blocks {
+		for _, in := range b.Instrs {
+			if call, ok := in.(*ssa.Call); ok && call.Call.IsInvoke() && call.Call.Method.Name() == "Err" {
+				k++
+			}
+			if in == at {
+				return k
+			}
+		}
+	}
+	return k
+}
+
+// ---------------------------------------------------------------------------
+// theRunCounterOnlyCounts: the watcher goroutine of a run halts the VM only if
+// the VM's start counter still has the value it had when the run was armed.
+// That works because the counter does nothing but count: the only store to it
+// in a VM that is in use adds one to its previous value.  Set back anywhere
+// else (a reset that makes the VM "like new"), the run in progress no longer
+// matches its own watcher and cancellation does not stop it.
+func theRunCounterOnlyCounts(c *core.Ctx) {
+	p := c.P
+	vmT := vmType(p)
+	ci := fieldIdxByName(vmT, "startCount")
+	if ci < 0 {
+		core.Undecidedf("VirtualMachine.startCount not found")
+	}
+	n := 0
+	for _, fn := range repoFns(p, "vm") {
+		k := 0
+		for _, st := range storesToField(fn, vmT, ci) {
+			if isFreshAlloc(st.Addr.(*ssa.FieldAddr).X) {
+				continue
+			}
+			n++
+			k++
+			counts := false
+			if bo, ok := st.Val.(*ssa.BinOp); ok && bo.Op == token.ADD {
+				if k1, ok := bo.Y.(*ssa.Const); ok && k1.Value != nil && k1.Value.ExactString() == "1" {
+					if _, ok := loadOfField(bo.X, vmT, ci); ok {
+						counts = true
+					}
+				}
+			}
+			c.Check(counts, core.SSAName(fn)+"|run-counter-only-counts|"+sprintf("%d", k), p.Pos(st.Pos()),
+				core.SSAName(fn)+" writes the VM's start counter"+ife(counts, " by adding one to it", " with something other than its previous value plus one: the run that is armed at that moment carries the old count as its identity, so its watcher no longer recognises it and a cancelled context does not halt it"))
+		}
+	}
+	if n == 0 {
+		core.Undecidedf("nothing writes VirtualMachine.startCount")
+	}
+	c.Stat("run_counter_stores", n)
+}
+
+// ---------------------------------------------------------------------------
+// configurationIsWrittenByOptionsOnly: the fields of the VM that its options
+// set (the OS, the importer, the input globals, ...) are the host's
+// configuration.  In a VM that is in use they are written by option closures
+// and by the function that applies them, nothing else: a field that an
+// invocation fills in from its own context (the OS found there) configures
+// every later invocation on the VM with it.
+func configurationIsWrittenByOptionsOnly(c *core.Ctx) {
+	p := c.P
+	vmT := vmType(p)
+	st := vmT.Underlying().(*types.Struct)
+	isOptionClosure := func(fn *ssa.Function) bool {
+		if fn.Parent() == nil || len(fn.Params) != 1 {
+			return false
+		}
+		pt, ok := fn.Params[0].Type().(*types.Pointer)
+		return ok && core.NamedOf(pt) == vmT
+	}
+	// who applies the options: calls a value of the option type dynamically
+	applies := map[*ssa.Function]bool{}
+	optFields := map[int]string{}
+	for _, fn := range repoFns(p, "vm") {
+		if isOptionClosure(fn) {
+			for fi := 0; fi < st.NumFields(); fi++ {
+				if len(storesToField(fn, vmT, fi)) > 0 || updatesMapField(fn, vmT, fi) != nil {
+					optFields[fi] = fn.Parent().Name()
+				}
+			}
+		}
+		for _, b := range fn.Blocks {
+			for _, in := range b.Instrs {
+				if call, ok := in.(*ssa.Call); ok && !call.Call.IsInvoke() && call.Call.StaticCallee() == nil {
+					if nt, ok := call.Call.Value.Type().(*types.Named); ok && nt.Obj().Name() == "Option" {
+						applies[fn] = true
+					}
+				}
+			}
+		}
+	}
+	// a field the dispatch loop writes is run state that an option merely
+	// initialises (the instruction pointer), not configuration
+	if ev := p.SSAFunc(VMTable(p).Eval); ev != nil {
+		for fi := range optFields {
+			if len(storesToField(ev, vmT, fi)) > 0 {
+				delete(optFields, fi)
+			}
+		}
+	}
+	if len(optFields) < 3 {
+		core.Undecidedf("only %d fields are written by option closures", len(optFields))
+	}
+	n := 0
+	for _, fn := range repoFns(p, "vm") {
+		if isOptionClosure(fn) || applies[fn] {
+			continue
+		}
+		for fi, opt := range optFields {
+			k := 0
+			for _, s := range storesToField(fn, vmT, fi) {
+				if isFreshAlloc(s.Addr.(*ssa.FieldAddr).X) {
+					continue
+				}
+				n++
+				k++
+				c.Check(false, core.SSAName(fn)+"|"+st.Field(fi).Name()+"|configuration-written-by-options-only|"+sprintf("%d", k), p.Pos(s.Pos()),
+					core.SSAName(fn)+" writes vm."+st.Field(fi).Name()+", which the option "+opt+" sets: what one invocation stores there is the configuration of every later invocation on the VM")
+			}
+		}
+	}
+	c.Pass("vm|configuration-fields", "", sprintf("%d fields of the VM are set by options; %d stores to them outside options, their application and constructors", len(optFields), n))
+	c.Stat("option_fields", len(optFields))
+}
+
+// ---------------------------------------------------------------------------
+// tablesFilledWhileRunningAreForgottenWithTheCode: a map of the VM that its
+// methods fill while code runs (loaded code, imported modules, or a memo of
+// where a name was found) describes the code that is loaded.  The function
+// that forgets the loaded code for a new RunCode replaces every such map.  A
+// map it leaves alone answers the next program with facts about the previous
+// one: Get("handler") returns the global that sat at handler's old index.
+func tablesFilledWhileRunningAreForgottenWithTheCode(c *core.Ctx) {
+	p := c.P
+	vmT := vmType(p)
+	st := vmT.Underlying().(*types.Struct)
+	li := fieldIdxByName(vmT, "loadedCode")
+	var reset *ssa.Function
+	for _, fn := range repoFns(p, "vm") {
+		for _, s := range storesToField(fn, vmT, li) {
+			if _, fresh := s.Val.(*ssa.MakeMap); fresh && !isFreshAlloc(s.Addr.(*ssa.FieldAddr).X) {
+				reset = fn
+			}
+		}
+	}
+	if reset == nil {
+		core.Undecidedf("no function empties VirtualMachine.loadedCode")
+	}
+	isOptionClosure := func(fn *ssa.Function) bool {
+		if fn.Parent() == nil || len(fn.Params) != 1 {
+			return false
+		}
+		pt, ok := fn.Params[0].Type().(*types.Pointer)
+		return ok && core.NamedOf(pt) == vmT
+	}
+	n := 0
+	for fi := 0; fi < st.NumFields(); fi++ {
+		if _, isMap := st.Field(fi).Type().Underlying().(*types.Map); !isMap {
+			continue
+		}
+		filled := ""
+		byOption := false
+		for _, fn := range repoFns(p, "vm") {
+			for _, b := range fn.Blocks {
+				for _, in := range b.Instrs {
+					mu, ok := in.(*ssa.MapUpdate)
+					if !ok {
+						continue
+					}
+					fa, ok := loadOfField(mu.Map, vmT, fi)
+					if !ok || isFreshAlloc(fa.X) {
+						continue
+					}
+					if isOptionClosure(fn) {
+						byOption = true
+						continue
+					}
+					if removedByDefer(fn, mu) {
+						continue
+					}
+					filled = core.SSAName(fn)
+				}
+			}
+		}
+		if filled == "" || byOption {
+			continue
+		}
+		n++
+		forgotten := false
+		for _, s := range storesToField(reset, vmT, fi) {
+			if _, fresh := s.Val.(*ssa.MakeMap); fresh {
+				forgotten = true
+			}
+		}
+		c.Check(forgotten, "vm.VirtualMachine."+st.Field(fi).Name()+"|forgotten-with-the-code", p.Pos(st.Field(fi).Pos()),
+			"vm."+st.Field(fi).Name()+" is filled while code runs (by "+filled+")"+ife(forgotten, " and "+reset.Name()+" replaces it with an empty map", " and "+reset.Name()+", which forgets the loaded code before a RunCode, leaves it alone: the next program is answered with what was recorded about the previous one"))
+	}
+	if n < 2 {
+		core.Undecidedf("only %d maps of the VM are filled while code runs", n)
+	}
+	c.Stat("run_filled_tables", n)
+}
+
+// ---------------------------------------------------------------------------
+// clonesAliasOnlyWhatIsMeantToBeShared: Clone gives the clone storage of its
+// own for everything the VM writes while it runs.  The reference-typed fields
+// it hands over as they are (the same map, slice, channel or pointer as the
+// original's) are the ones in this table, each with the reason it is safe or
+// intended.  Another one is shared between threads that run at the same time:
+// a scratch buffer shared with a clone mixes up the arguments of concurrent
+// calls, and a semaphore shared with the clones ties their progress together.
+var cloneMayAlias = map[string]string{
+	"importer": "the importer is an interface value configured by the host; LocalImporter guards its cache with a mutex",
+	"os":       "the host's OS, meant to be the same for every thread of an evaluation",
+	"main":     "compiled code is immutable",
+	"globals":  "documented: clones share the global variables of the original (the map is replaced, never written, by applyOptions)",
+}
+
+func clonesAliasOnlyWhatIsMeantToBeShared(c *core.Ctx) {
+	p := c.P
+	vmT := vmType(p)
+	st := vmT.Underlying().(*types.Struct)
+	var clone *ssa.Function
+	for _, fn := range repoFns(p, "vm") {
+		if fn.Name() == "Clone" && fn.Signature.Recv() != nil && core.NamedOf(fn.Signature.Recv().Type()) == vmT && fn.Parent() == nil {
+			clone = fn
+		}
+	}
+	if clone == nil {
+		core.Undecidedf("VirtualMachine.Clone not found")
+	}
+	n := 0
+	for _, b := range clone.Blocks {
+		for _, in := range b.Instrs {
+			s, ok := in.(*ssa.Store)
+			if !ok {
+				continue
+			}
+			fa, ok := s.Addr.(*ssa.FieldAddr)
+			if !ok || core.NamedOf(fa.X.Type()) != vmT || !isFreshAlloc(fa.X) {
+				continue
+			}
+			switch st.Field(fa.Field).Type().Underlying().(type) {
+			case *types.Map, *types.Slice, *types.Chan, *types.Pointer, *types.Interface:
+			default:
+				continue
+			}
+			// the same field of the original?
+			src, isLoad := loadOfField(s.Val, vmT, fa.Field)
+			if !isLoad || len(clone.Params) == 0 || src.X != ssa.Value(clone.Params[0]) {
+				continue
+			}
+			n++
+			name := st.Field(fa.Field).Name()
+			why, ok := cloneMayAlias[name]
+			c.Check(ok, "vm.VirtualMachine.Clone|aliases|"+name, p.Pos(s.Pos()),
+				"Clone hands the clone the original's "+name+" as it is"+ife(ok, ": "+why, ", and "+name+" is not in the table of state that is meant to be shared: the original and every clone, each on a goroutine of its own, use one "+st.Field(fa.Field).Type().String()))
+		}
+	}
+	if n < 3 {
+		core.Undecidedf("Clone aliases only %d reference-typed fields", n)
+	}
+	c.Stat("clone_aliased_fields", n)
 }
